@@ -120,7 +120,7 @@ CLAIMS = {
     ),
     "C19": dict(
         engine="endpoint",
-        text="Lean 4 theorems over the endpoint parser model (the two regexes' semantics spelled out over List Char): parse s = ok e <-> the declarative grammar of the property (strict, both directions), parse (display e) = ok e for every parsed e (round trip, IPv6 bracketed), the only slicing operation is in range and on char boundaries (total), IP literals become addresses. std::net enters through an explicit structure of laws; for the executable std models all of them are PROVED (IPv4 round trip for all 2^32 addresses, character set, IPv6 text shape) except the IPv6 print/parse round trip, the one remaining hypothesis of C19_roundtrip_std (sampled against the real std; corner cases of RFC 5952 checked by the kernel). Tie: real str::parse::<Endpoint>() + Display + re-parse vs the model, EXHAUSTIVELY over a 17-character alphabet (incl. newline, non-ASCII digit, upper case) to length 4/5 after 5 prefixes, grammar-based and mutated endpoints; the Lean models of std::net parse/print are compared with the real std on sampled addresses and near-valid IPv6/IPv4 texts.",
+        text="Lean 4 theorems over the endpoint parser model (the two regexes' semantics spelled out over List Char): parse s = ok e <-> the declarative grammar of the property (strict, both directions), parse (display e) = ok e for every parsed e (round trip, IPv6 bracketed), the only slicing operation is in range and on char boundaries (total), IP literals become addresses. std::net enters through an explicit structure of laws; for the executable std models ALL of them are proved (IPv4 round trip for all 2^32 addresses, IPv6 round trip for all 2^128 addresses — RFC 5952 printing against the recursive-descent parser —, character sets, text shapes): C19_roundtrip_std has no hypothesis; that the models are std::net is sampled on every run. Tie: real str::parse::<Endpoint>() + Display + re-parse vs the model, EXHAUSTIVELY over a 17-character alphabet (incl. newline, non-ASCII digit, upper case) to length 4/5 after 5 prefixes, grammar-based and mutated endpoints; the Lean models of std::net parse/print are compared with the real std on sampled addresses and near-valid IPv6/IPv4 texts.",
         note=LEAN_NOTE + "regex crate semantics of the two patterns; Rust std::net (IPv4/IPv6 text laws are hypotheses, sampled)",
         technique="Lean 4 proof (strictness iff, round trip modulo std::net laws) + exhaustive small-alphabet differential correspondence",
     ),
